@@ -1,7 +1,9 @@
 //! Simulator kernel shared by all engines.
 pub mod log;
 pub mod pipe;
+pub mod proto;
 pub mod sched;
+pub mod simnet;
 
 pub use log::Log;
 pub use sched::{run_sim, Policy, Sched};
